@@ -36,7 +36,11 @@ pub fn workdir() -> PathBuf {
                 let root = std::env::var("DLTVERIF_ROOT").unwrap_or_else(|_| ".".to_string());
                 PathBuf::from(root).join("work")
             };
-            let d = base.join(format!("dltverif-{}-{}", std::process::id(), NEXT_DIR.fetch_add(1, Ordering::Relaxed)));
+            let d = base.join(format!(
+                "dltverif-{}-{}",
+                std::process::id(),
+                NEXT_DIR.fetch_add(1, Ordering::Relaxed)
+            ));
             let _ = std::fs::create_dir_all(&d);
             *w = Some(d);
         }
@@ -44,10 +48,19 @@ pub fn workdir() -> PathBuf {
     })
 }
 pub fn cleanup_workdirs() {
-    for base in ["/dev/shm".to_string(), format!("{}/work", std::env::var("DLTVERIF_ROOT").unwrap_or_else(|_| ".".to_string()))] {
+    for base in [
+        "/dev/shm".to_string(),
+        format!(
+            "{}/work",
+            std::env::var("DLTVERIF_ROOT").unwrap_or_else(|_| ".".to_string())
+        ),
+    ] {
         if let Ok(rd) = std::fs::read_dir(&base) {
             for e in rd.flatten() {
-                if e.file_name().to_string_lossy().starts_with(&format!("dltverif-{}-", std::process::id())) {
+                if e.file_name()
+                    .to_string_lossy()
+                    .starts_with(&format!("dltverif-{}-", std::process::id()))
+                {
                     let _ = std::fs::remove_dir_all(e.path());
                 }
             }
@@ -72,9 +85,17 @@ pub fn write_docs(docs: &[Vec<u8>], tag: &str) -> Vec<String> {
 }
 
 fn load(m: &fx::Model, l: &fx::Layout, tag: &str) -> Result<Option<FibexMetadata>, Violation> {
-    let docs: Vec<Vec<u8>> = fx::render(m, l).into_iter().map(|s| s.into_bytes()).collect();
+    let docs: Vec<Vec<u8>> = fx::render(m, l)
+        .into_iter()
+        .map(|s| s.into_bytes())
+        .collect();
     let paths = write_docs(&docs, tag);
-    guard(|| gather_fibex_data(FibexConfig { fibex_file_paths: paths })).map_err(|p| Violation::from_panic("gather_fibex_data on a generated model", &p))
+    guard(|| {
+        gather_fibex_data(FibexConfig {
+            fibex_file_paths: paths,
+        })
+    })
+    .map_err(|p| Violation::from_panic("gather_fibex_data on a generated model", &p))
 }
 
 /// `<MESSAGE_INFO/>` may be read as "no value" or as the empty string: the statement does not say; both are accepted
@@ -90,8 +111,16 @@ fn normalise(m: &Option<FibexMetadata>) -> Option<FibexMetadata> {
         f
     };
     m.as_ref().map(|m| FibexMetadata {
-        frame_map_with_key: m.frame_map_with_key.iter().map(|(k, v)| (k.clone(), fix(v))).collect(),
-        frame_map: m.frame_map.iter().map(|(k, v)| (k.clone(), fix(v))).collect(),
+        frame_map_with_key: m
+            .frame_map_with_key
+            .iter()
+            .map(|(k, v)| (k.clone(), fix(v)))
+            .collect(),
+        frame_map: m
+            .frame_map
+            .iter()
+            .map(|(k, v)| (k.clone(), fix(v)))
+            .collect(),
     })
 }
 
@@ -99,12 +128,20 @@ fn diff(got: &Option<FibexMetadata>, want: &Option<FibexMetadata>) -> Option<(St
     let got = &normalise(got);
     match (got, want) {
         (None, None) => None,
-        (Some(_), None) => Some(("loaded-despite-dangling-pdu-ref".into(), "loading succeeded although a frame refers to an unknown PDU".into())),
-        (None, Some(_)) => Some(("load-failed".into(), "loading failed for a valid model".into())),
+        (Some(_), None) => Some((
+            "loaded-despite-dangling-pdu-ref".into(),
+            "loading succeeded although a frame refers to an unknown PDU".into(),
+        )),
+        (None, Some(_)) => Some((
+            "load-failed".into(),
+            "loading failed for a valid model".into(),
+        )),
         (Some(g), Some(w)) => {
             for (id, wf) in &w.frame_map {
                 match g.frame_map.get(id) {
-                    None => return Some(("frame-missing".into(), format!("frame {:?} is missing", id))),
+                    None => {
+                        return Some(("frame-missing".into(), format!("frame {:?} is missing", id)))
+                    }
                     Some(gf) => {
                         if gf != wf {
                             let field = if gf.short_name != wf.short_name {
@@ -112,7 +149,12 @@ fn diff(got: &Option<FibexMetadata>, want: &Option<FibexMetadata>) -> Option<(St
                             } else if gf.pdus.len() != wf.pdus.len() {
                                 "pdu-count"
                             } else if gf.pdus != wf.pdus {
-                                if gf.pdus.iter().zip(wf.pdus.iter()).any(|(a, b)| a.description != b.description) {
+                                if gf
+                                    .pdus
+                                    .iter()
+                                    .zip(wf.pdus.iter())
+                                    .any(|(a, b)| a.description != b.description)
+                                {
                                     "pdu-order-or-description"
                                 } else {
                                     "signal-types"
@@ -120,16 +162,36 @@ fn diff(got: &Option<FibexMetadata>, want: &Option<FibexMetadata>) -> Option<(St
                             } else {
                                 "manufacturer-extension"
                             };
-                            return Some((format!("frame:{}", field), format!("frame {:?} differs in {}: got {:?} expected {:?}", id, field, gf, wf)));
+                            return Some((
+                                format!("frame:{}", field),
+                                format!(
+                                    "frame {:?} differs in {}: got {:?} expected {:?}",
+                                    id, field, gf, wf
+                                ),
+                            ));
                         }
                     }
                 }
             }
             if g.frame_map.len() != w.frame_map.len() {
-                return Some(("frame-extra".into(), format!("{} frames by id, expected {}", g.frame_map.len(), w.frame_map.len())));
+                return Some((
+                    "frame-extra".into(),
+                    format!(
+                        "{} frames by id, expected {}",
+                        g.frame_map.len(),
+                        w.frame_map.len()
+                    ),
+                ));
             }
             if g.frame_map_with_key != w.frame_map_with_key {
-                return Some(("keyed-map".into(), format!("keyed frame map differs: got keys {:?} expected keys {:?}", g.frame_map_with_key.keys().collect::<Vec<_>>(), w.frame_map_with_key.keys().collect::<Vec<_>>())));
+                return Some((
+                    "keyed-map".into(),
+                    format!(
+                        "keyed frame map differs: got keys {:?} expected keys {:?}",
+                        g.frame_map_with_key.keys().collect::<Vec<_>>(),
+                        w.frame_map_with_key.keys().collect::<Vec<_>>()
+                    ),
+                ));
             }
             None
         }
@@ -140,13 +202,25 @@ pub fn check(c: &Case) -> CheckResult {
     let want = fx::expected(&c.model);
     let got = load(&c.model, &c.layout, "a")?;
     if let Some((sig, msg)) = diff(&got, &want) {
-        return Err(viol!(format!("fibex:{}", sig), "{}\n  layout={:?}\n  first file:\n{}", msg, c.layout, fx::render(&c.model, &c.layout)[0]));
+        return Err(viol!(
+            format!("fibex:{}", sig),
+            "{}\n  layout={:?}\n  first file:\n{}",
+            msg,
+            c.layout,
+            fx::render(&c.model, &c.layout)[0]
+        ));
     }
     // metamorphic: another layout / partition of the same model gives an equal result
     let got2 = load(&c.model, &c.layout2, "b")?;
     if normalise(&got2) != normalise(&got) {
-        let (sig, msg) = diff(&got2, &want).unwrap_or(("layout".into(), "second layout differs".into()));
-        return Err(viol!(format!("fibex:layout-dependence:{}", sig), "a second layout of the same model loads differently: {}\n  layout2={:?}", msg, c.layout2));
+        let (sig, msg) =
+            diff(&got2, &want).unwrap_or(("layout".into(), "second layout differs".into()));
+        return Err(viol!(
+            format!("fibex:layout-dependence:{}", sig),
+            "a second layout of the same model loads differently: {}\n  layout2={:?}",
+            msg,
+            c.layout2
+        ));
     }
     // history: the same paths hold other content of the same size and the same modification time a moment later (a file
     // edited in place and re-stamped, `cp -p`, a reproducible build) — loading returns what the files hold NOW
@@ -164,8 +238,14 @@ pub fn check(c: &Case) -> CheckResult {
         }
         if changed {
             let stamp = std::time::UNIX_EPOCH + std::time::Duration::from_secs(1_600_000_000);
-            let docs_a: Vec<Vec<u8>> = fx::render(&c.model, &c.layout).into_iter().map(|s| s.into_bytes()).collect();
-            let docs_b: Vec<Vec<u8>> = fx::render(&variant, &c.layout).into_iter().map(|s| s.into_bytes()).collect();
+            let docs_a: Vec<Vec<u8>> = fx::render(&c.model, &c.layout)
+                .into_iter()
+                .map(|s| s.into_bytes())
+                .collect();
+            let docs_b: Vec<Vec<u8>> = fx::render(&variant, &c.layout)
+                .into_iter()
+                .map(|s| s.into_bytes())
+                .collect();
             let restamp = |paths: &[String]| {
                 for p in paths {
                     if let Ok(f) = std::fs::OpenOptions::new().write(true).open(p) {
@@ -175,12 +255,26 @@ pub fn check(c: &Case) -> CheckResult {
             };
             let paths = write_docs(&docs_a, "r");
             restamp(&paths);
-            let first = guard(|| gather_fibex_data(FibexConfig { fibex_file_paths: paths.clone() })).map_err(|p| Violation::from_panic("gather_fibex_data", &p))?;
+            let first = guard(|| {
+                gather_fibex_data(FibexConfig {
+                    fibex_file_paths: paths.clone(),
+                })
+            })
+            .map_err(|p| Violation::from_panic("gather_fibex_data", &p))?;
             let paths2 = write_docs(&docs_b, "r");
             restamp(&paths2);
-            let second = guard(|| gather_fibex_data(FibexConfig { fibex_file_paths: paths2 })).map_err(|p| Violation::from_panic("gather_fibex_data (reload)", &p))?;
+            let second = guard(|| {
+                gather_fibex_data(FibexConfig {
+                    fibex_file_paths: paths2,
+                })
+            })
+            .map_err(|p| Violation::from_panic("gather_fibex_data (reload)", &p))?;
             if let Some((sig, msg)) = diff(&first, &want) {
-                return Err(viol!(format!("fibex:{}", sig), "{} (load before the in-place edit)", msg));
+                return Err(viol!(
+                    format!("fibex:{}", sig),
+                    "{} (load before the in-place edit)",
+                    msg
+                ));
             }
             let want_b = fx::expected(&variant);
             if let Some((sig, msg)) = diff(&second, &want_b) {
@@ -190,16 +284,37 @@ pub fn check(c: &Case) -> CheckResult {
     }
     // lookups
     if let Some(model) = &got {
-        let mut ids: Vec<u32> = c.model.frames.iter().filter_map(|f| f.id.strip_prefix("ID_").and_then(|n| n.parse::<u32>().ok())).collect();
+        let mut ids: Vec<u32> = c
+            .model
+            .frames
+            .iter()
+            .filter_map(|f| f.id.strip_prefix("ID_").and_then(|n| n.parse::<u32>().ok()))
+            .collect();
         ids.push(c.absent_id);
         ids.push(6);
         for id in ids {
             let text = format!("ID_{}", id);
-            let r = guard(|| extract_metadata(model, id, None).cloned()).map_err(|p| Violation::from_panic("extract_metadata", &p))?;
+            let r = guard(|| extract_metadata(model, id, None).cloned())
+                .map_err(|p| Violation::from_panic("extract_metadata", &p))?;
             if r.as_ref() != model.frame_map.get(&text) {
-                return Err(viol!("fibex:lookup:by-id", "extract_metadata(id={}, no extended header) = {:?}, the frame map has {:?}", id, r.map(|f| f.short_name), model.frame_map.get(&text).map(|f| &f.short_name)));
+                return Err(viol!(
+                    "fibex:lookup:by-id",
+                    "extract_metadata(id={}, no extended header) = {:?}, the frame map has {:?}",
+                    id,
+                    r.map(|f| f.short_name),
+                    model.frame_map.get(&text).map(|f| &f.short_name)
+                ));
             }
-            let mut exts: Vec<(String, String)> = c.model.frames.iter().filter_map(|f| f.ext.as_ref().and_then(|e| Some((e.application_id.clone()?, e.context_id.clone()?)))).collect();
+            let mut exts: Vec<(String, String)> = c
+                .model
+                .frames
+                .iter()
+                .filter_map(|f| {
+                    f.ext
+                        .as_ref()
+                        .and_then(|e| Some((e.application_id.clone()?, e.context_id.clone()?)))
+                })
+                .collect();
             exts.push(("NOAPP".into(), "NOCTX".into()));
             for (app, ctx) in exts {
                 // the lookup uses the ids of the extended header only: its other fields vary and must not matter
@@ -211,11 +326,31 @@ pub fn check(c: &Case) -> CheckResult {
                     3 => MessageType::ApplicationTrace(dlt_core::dlt::ApplicationTraceType::State),
                     _ => MessageType::Unknown((5, 3)),
                 };
-                let eh = ExtendedHeader { verbose: variety % 2 == 1, argument_count: (variety % 4) as u8, message_type, application_id: app.clone(), context_id: ctx.clone() };
-                let r = guard(|| extract_metadata(model, id, Some(&eh)).cloned()).map_err(|p| Violation::from_panic("extract_metadata", &p))?;
-                let want = want.as_ref().and_then(|w| w.frame_map_with_key.iter().find(|(k, _)| k.frame_id == text && k.app_id == app && k.context_id == ctx).map(|(_, v)| v.clone()));
+                let eh = ExtendedHeader {
+                    verbose: variety % 2 == 1,
+                    argument_count: (variety % 4) as u8,
+                    message_type,
+                    application_id: app.clone(),
+                    context_id: ctx.clone(),
+                };
+                let r = guard(|| extract_metadata(model, id, Some(&eh)).cloned())
+                    .map_err(|p| Violation::from_panic("extract_metadata", &p))?;
+                let want = want.as_ref().and_then(|w| {
+                    w.frame_map_with_key
+                        .iter()
+                        .find(|(k, _)| k.frame_id == text && k.app_id == app && k.context_id == ctx)
+                        .map(|(_, v)| v.clone())
+                });
                 if r != want {
-                    return Err(viol!("fibex:lookup:by-key", "extract_metadata(id={}, app={:?}, ctx={:?}) = {:?}, expected {:?}", id, app, ctx, r.map(|f| f.short_name), want.map(|f| f.short_name)));
+                    return Err(viol!(
+                        "fibex:lookup:by-key",
+                        "extract_metadata(id={}, app={:?}, ctx={:?}) = {:?}, expected {:?}",
+                        id,
+                        app,
+                        ctx,
+                        r.map(|f| f.short_name),
+                        want.map(|f| f.short_name)
+                    ));
                 }
             }
         }
@@ -233,20 +368,40 @@ pub fn check(c: &Case) -> CheckResult {
         ids.sort();
         ids.windows(2).any(|w| w[0] == w[1])
     };
-    let custom = m.pdus.iter().any(|p| p.signals.iter().any(|s| s.1.starts_with("SIG_")));
+    let custom = m
+        .pdus
+        .iter()
+        .any(|p| p.signals.iter().any(|s| s.1.starts_with("SIG_")));
     let multi_file = c.layout.files.min(4) >= 2;
-    Ok(Pass::new((multi_pdu_frame && out_of_order(&c.layout)) || multi_file || dup_pdu || dup_frame || custom)
-        .class(if want.is_some() { "loads" } else { "dangling-pdu-ref" })
-        .class_if(multi_file, "files>=2")
-        .class_if(dup_pdu, "duplicate-pdu-id")
-        .class_if(dup_frame, "duplicate-frame-id")
-        .class_if(custom, "custom-coded-signal")
-        .class_if(multi_pdu_frame, "frame-with>=2-pdus")
-        .class_if(m.frames.is_empty(), "no-frames"))
+    Ok(Pass::new(
+        (multi_pdu_frame && out_of_order(&c.layout))
+            || multi_file
+            || dup_pdu
+            || dup_frame
+            || custom,
+    )
+    .class(if want.is_some() {
+        "loads"
+    } else {
+        "dangling-pdu-ref"
+    })
+    .class_if(multi_file, "files>=2")
+    .class_if(dup_pdu, "duplicate-pdu-id")
+    .class_if(dup_frame, "duplicate-frame-id")
+    .class_if(custom, "custom-coded-signal")
+    .class_if(multi_pdu_frame, "frame-with>=2-pdus")
+    .class_if(m.frames.is_empty(), "no-frames"))
 }
 
 pub fn strategy() -> impl Strategy<Value = Case> {
-    (fx::model(), fx::layout(), fx::layout(), any::<u32>()).prop_map(|(model, layout, layout2, absent_id)| Case { model, layout, layout2, absent_id })
+    (fx::model(), fx::layout(), fx::layout(), any::<u32>()).prop_map(
+        |(model, layout, layout2, absent_id)| Case {
+            model,
+            layout,
+            layout2,
+            absent_id,
+        },
+    )
 }
 
 pub fn run(run: &Run) {
@@ -262,7 +417,13 @@ pub fn run(run: &Run) {
     );
     run.assume("not generated because the statement is silent: duplicate signal/coding ids, equal sequence numbers, custom signals named like standard ones, empty SHORT-NAME / FRAME-TYPE, CODING-REF written as start/end tags, nested SHORT-NAME inside instances");
     run.regressions(&replay);
-    run.random("models", run.cases(120_000, 1_500_000), 0.5, strategy, check);
+    run.random(
+        "models",
+        run.cases(120_000, 1_500_000),
+        0.5,
+        strategy,
+        check,
+    );
     cleanup_workdirs();
 }
 
